@@ -210,6 +210,25 @@ impl DepthFirstSearch {
 
         let success = self.search_recursive_with_execution(goal, facts, kb, 0);
 
+        // When several solutions were asked for, every solution found was rolled back so
+        // that the search could go on. Hand the caller facts in which the goal actually
+        // holds: derive one proof again and keep its changes.
+        if success
+            && self.max_solutions > 1
+            && !goal.is_negated
+            && !self.check_goal_in_facts(goal, facts)
+        {
+            let wanted = self.max_solutions;
+            let found = std::mem::take(&mut self.solutions);
+            let path = std::mem::take(&mut self.path);
+            self.max_solutions = 1;
+            goal.status = GoalStatus::Pending;
+            self.search_recursive_with_execution(goal, facts, kb, 0);
+            self.max_solutions = wanted;
+            self.solutions = found;
+            self.path = path;
+        }
+
         SearchResult {
             success,
             path: self.path.clone(),
